@@ -186,6 +186,7 @@ func bvLit(v uint64, w int) string {
 const smtPreludeCore = `
 (declare-sort Str 0)
 (declare-sort RV 0)
+(declare-sort Cx 0)
 (declare-fun strlen (Str) Int)
 (assert (forall ((s Str)) (! (>= (strlen s) 0) :pattern ((strlen s)))))
 (declare-fun strlt (Str Str) Bool)
